@@ -22,17 +22,34 @@ def F_of(row, frac, z):
     return np.interp(z, frac, row)
 
 
+_RAW = {}
+
+
+def raw_cdf(version):
+    """The CDF table of a version read directly from its file (independent of the object under test)."""
+    if version not in _RAW:
+        import h5py
+        p = REPO / "src" / "nuspacesim" / "data" / "nupyprop_tables" / f"nu2tau_cdf.{version}.h5"
+        with h5py.File(p, "r") as f:
+            data = f["/"]["__nss_grid_data__"][()]
+            names = [f["/"].attrs[f"AXIS{i}"] for i in range(data.ndim)]
+            axes = {n: f["/"]["__nss_grid_axes__"][n][()] for n in names}
+        _RAW[version] = (np.array(data, dtype=np.float64), axes)
+    return _RAW[version]
+
+
 def oracle_rows(tau, le, b):
+    """Bilinearly interpolated CDF rows from the raw file of the CONFIGURED table version."""
     from scipy.interpolate import interpn
-    g = tau.tau_cdf_grid
-    return interpn((g["log_e_nu"], g["beta_rad"]), g.data, (le, b))
+    data, axes = raw_cdf(str(tau.config.simulation.tau_shower.table_version))
+    return interpn((axes["log_e_nu"], axes["beta_rad"]), data, (le, b))
 
 
 def check_sampler(ctx, v, tau, le, b, u, stream):
     """grid_cdf_sampler vs model + property oracle (F(z)=u, range) on the real outputs."""
     from nuspacesim.utils.cdf import grid_cdf_sampler
     g = tau.tau_cdf_grid
-    frac = g["e_tau_frac"]
+    frac = raw_cdf(v)[1]["e_tau_frac"]
     le0, b0, u0 = le.copy(), b.copy(), u.copy()
     z = grid_cdf_sampler(g)(le, b, u)
     if not (np.array_equal(le, le0) and np.array_equal(b, b0) and np.array_equal(u, u0)):
@@ -69,7 +86,8 @@ def run(ctx: Ctx):
     one = np.float64(1.0)
     for v, tau in taus.items():
         g = tau.tau_cdf_grid
-        gE, gB, frac = g["log_e_nu"], g["beta_rad"], g["e_tau_frac"]
+        _, rax = raw_cdf(v)
+        gE, gB, frac = rax["log_e_nu"], rax["beta_rad"], rax["e_tau_frac"]
         bmin, bmax = gB[0], gB[-1]
         # ---- structured
         le = rng.uniform(gE[0], gE[-1], n)
